@@ -51,6 +51,7 @@ type World struct {
 	typeInvs    map[string][]*typeInvInfo // by typeKey of the pointer's element type
 	scans       []*ScanDecl
 	typeTags    map[string]int // dynamic type tags of heap-allocated struct types
+	sweeps      []string
 }
 
 type typeInvInfo struct {
@@ -451,11 +452,22 @@ func (w *World) typeTagFact(v Term, elem types.Type) (Term, bool) {
 	if n.Obj().Pkg() == nil || !strings.HasPrefix(n.Obj().Pkg().Path(), "go.uber.org/dig") {
 		return Term{}, false
 	}
-	k := typeKey(n)
+	id := w.tagID(typeKey(n))
+	return mkEq(app("Int", "typetag", v), intLit(int64(id))), true
+}
+
+// tagID returns the dynamic type tag of a struct type given by its key.
+func (w *World) tagID(k string) int {
 	id, ok := w.typeTags[k]
 	if !ok {
 		id = len(w.typeTags) + 1
 		w.typeTags[k] = id
 	}
-	return mkEq(app("Int", "typetag", v), intLit(int64(id))), true
+	return id
+}
+
+// plainGap: no object allocated in (lo, hi] is a Scope or a graphHolder.
+func (w *World) plainGap(lo, hi Term) Term {
+	return Term{fmt.Sprintf("(forall ((r!x Int)) (! (=> (and (< %s r!x) (<= r!x %s)) (and (not (= (typetag r!x) %d)) (not (= (typetag r!x) %d)))) :pattern ((typetag r!x)) :qid plainalloc))",
+		lo.S, hi.S, w.tagID("dig.Scope"), w.tagID("dig.graphHolder")), "Bool"}
 }
